@@ -19,6 +19,8 @@ let rec cexpr_of (t : Sexp.t) : cexpr =
   | L [A "cnot"; a] -> CNot (cexpr_of a)
   | L [A "cbin"; A op; a; c] -> CBin (binop_of op, cexpr_of a, cexpr_of c)
   | L [A "ctern"; c; a; d] -> CTern (cexpr_of c, cexpr_of a, cexpr_of d)
+  | L [A "cloop"; A k; x] ->
+      CLoop ((match k with "index" -> LIndex | "isFirst" -> LIsFirst | "isLast" -> LIsLast | _ -> failwith "bad loop function"), xs (atom x))
   | _ -> failwith ("bad cexpr " ^ to_string t)
 
 let json_str (l : n list) : string =
@@ -49,14 +51,23 @@ let () =
     match Sexp.parse ("(" ^ String.concat " " a ^ ")") with
     | L [ijs; L (A "scope" :: scs); L (A "env" :: envs); e] ->
         let ij = (match ijs with A "none" -> None | L [A "ij"; v] -> Some (value_of v) | _ -> failwith "bad ij") in
-        let sc = List.map (function L [k; g] -> (xs (atom k), xs (atom g)) | _ -> failwith "bad scope") scs in
+        (* (k g) binds a Soy name; (loop x n) is the frame of a loop over $x with the counter n (scope.go pushForEach) *)
+        let loops = List.filter_map (function L [A "loop"; x; n] -> Some (xs (atom x), nn n) | _ -> None) scs in
+        let sc = List.filter_map (function L [A "loop"; _; _] -> None | L [k; g] -> Some (xs (atom k), xs (atom g)) | _ -> failwith "bad scope") scs in
         let env = List.map (function L [k; v] -> (xs (atom k), value_of v) | _ -> failwith "bad env") envs in
         let envf k = (try Some (List.assoc k env) with Not_found -> None) in
         let ce = cexpr_of e in
+        (* the variables of a loop frame: x_n holds $x, xIndex_n the hidden $x.index, xLimit_n the hidden $x.lastIndex + 1 *)
+        let loop_vars = List.concat_map (fun (x, n) ->
+          (match envf x with Some v -> [(jsc_name x n, to_js v)] | None -> [])
+          @ (match envf (x @ jk_index) with Some (VInt i) -> [(jsc_name (x @ t_index) n, JNum i)] | _ -> [])
+          @ (match envf (x @ c_lastindex) with Some (VInt l) -> [(jsc_name (x @ t_limit) n, JNum (Z.add l (Zpos XH)))] | _ -> [])) loops in
+        let hidden k = List.exists (fun (x, _) -> k = x || k = x @ jk_index || k = x @ c_lastindex) loops in
         let je = { je_vars = (match ij with Some v -> [(t_opt_ij, to_js v)] | None -> [])
-                             @ List.filter_map (fun (k, g) -> match envf k with Some v -> Some (g, to_js v) | None -> Some (g, JUndef)) sc;
-                   je_data = JObj (List.filter_map (fun (k, v) -> if List.mem_assoc k sc then None else Some (k, to_js v)) env) } in
-        let jx = cgen [sc] ce in
+                             @ List.filter_map (fun (k, g) -> match envf k with Some v -> Some (g, to_js v) | None -> Some (g, JUndef)) sc
+                             @ loop_vars;
+                   je_data = JObj (List.filter_map (fun (k, v) -> if List.mem_assoc k sc || hidden k then None else Some (k, to_js v)) env) } in
+        let jx = cgen (List.map (fun (x, n) -> loop_frame x n) (List.rev loops) @ [sc]) ce in
         let text = render_chunks is_print_tbl (jprint jx) in
         let cev = (match ceval ij envf ce with Some v -> hex_of_string (json_of (to_js v)) | None -> "none") in
         let jev = (match js_eval je jx with
@@ -82,6 +93,11 @@ let rec cstmt_of (t : Sexp.t) : cstmt =
   | L [A "sletc"; nm; body] -> SLetC (xs (atom nm), cblk_of body)
   | L [A "sif"; c; th; rest] -> SIf (cexpr_of c, cblk_of th, celse_of rest)
   | L [A "sswitch"; v; cs] -> SSwitch (cexpr_of v, ccases_of cs)
+  | L [A "sfor"; x; e; body; hasie; ie] -> SFor (xs (atom x), cexpr_of e, cblk_of body, bb hasie, cblk_of ie)
+  | L [A "scss"; A "none"; sfx] -> SCss (None, xs (atom sfx))
+  | L [A "scss"; e; sfx] -> SCss (Some (cexpr_of e), xs (atom sfx))
+  | L [A "sforrange"; x; L (a1 :: rest); body; hasie; ie] ->
+      SForRange (xs (atom x), cexpr_of a1, List.map cexpr_of rest, cblk_of body, bb hasie, cblk_of ie)
   | _ -> failwith ("bad cstmt " ^ to_string t)
 and cblk_of (t : Sexp.t) : cblk =
   match t with
